@@ -189,7 +189,7 @@ def main():
         })
     m = {
         "version": 1,
-        "setup_cmd": "cd /verif/harness && CARGO_NET_OFFLINE=true cargo build --offline && cd /verif/lean && lake build mtdriver Memterm",
+        "setup_cmd": "cd /verif/harness && CARGO_NET_OFFLINE=true cargo build --offline && cd /verif/lean && lake build mtdriver Memterm && (cd /verif/fuzz && CARGO_NET_OFFLINE=true CARGO_TARGET_DIR=/verif/fuzz/target cargo +nightly fuzz build -s none --fuzz-dir /verif/fuzz bytes && CARGO_NET_OFFLINE=true CARGO_TARGET_DIR=/verif/fuzz/target cargo +nightly fuzz build -s none --fuzz-dir /verif/fuzz api || true)",
         "hooks": {
             "guard": "memterm_verif",
             "enable": "no source hooks are needed (every field of Screen/Cursor/Savepoint is pub; the harness is a separate crate linking the shipping parser), so the guard is unused",
@@ -199,9 +199,9 @@ def main():
         },
         "engines": [{
             "name": "lean4-model+rust-harness",
-            "path": "/verif/lean, /verif/harness, /verif/bin/check",
+            "path": "/verif/lean, /verif/harness, /verif/fuzz, /verif/bin/check",
             "serves_properties": [c["property_id"] for c in checks],
-            "kind_free_text": "Lean 4 executable model + kernel-checked theorems; Rust harness running the real crate; Lean driver checking the crate's transitions against model and property predicates",
+            "kind_free_text": "Lean 4 executable model + kernel-checked theorems; Rust harness running the real crate; Lean driver checking the crate's transitions against model and property predicates; libFuzzer targets (fuzz/) proposing further sessions to that check",
         }],
         "checks": checks,
         "notes": "See DESIGN.md. /repo carries 'fix:' commits for the defects found (known_findings.json lists them as fixed).",
